@@ -25,15 +25,17 @@ CASE_TIMEOUT = 20
 RULE = ("own cases (harness/C10, plain + ASan/UBSan): updateTraces histories (S 1..4, A 1..3, 0..S*A stored traces, dyadic "
         "eligibilities so cut-off decisions are exact; shapes empty / singleton / full list, cut at index 0 / last / all), "
         "match on pairs of sorted key lists over <= 7 factors ('matchoob' = reads past the end), extractDominated on 0..9 vectors of "
-        "dimension 1..3 with ties/duplicates, extractBestUsefulPoints on 0..8 points x 1..5 planes ('ebuempty' = empty plane range), "
+        "dimension 1..3 with ties/duplicates, extractDominatedIncremental on 0..12 vectors with every old/new split (old range "
+        "pre-pruned in 80 %, strong new vectors in 50 %), extractBestUsefulPoints on 0..8 points x 1..5 planes ('ebuempty' = empty plane range), "
         "SARSOP witness/max lists under 0..10 addWit/rmWit/addMax/rmMax, FastInformedBound sparse-reward maximum ('fibmaxz' = with "
         "implicit zeros), FactorGraph histories (n 1..6, <= 12 getFactor/erase ops, 51 fixed shapes), BeliefGenerator on random dyadic "
         "POMDPs (n in 0..20); non-trivial = a trace cut / both key lists >= 2 keys / a vector removed / > 2 list ops / a factor "
         "re-requested or erased / more than 3 beliefs.  extra phase 1 (sanitizer sweep): corpus + quick-tier cases of every other "
-        "claimed property (120 sampled per property in quick, all in thorough) executed on that property's ASan+UBSan harness, "
-        "one evaluation per case, one 'non-trivial' per property swept.  extra phase 2 (compile probes): probe TUs of "
-        "harness/C10/probes/PROBES.json (quick: every known-failing probe + class-level probes + a sample, <= 260; thorough: all), "
-        "one evaluation per probe, non-trivial = it compiled.")
+        "claimed property (quick: all of its quick-tier cases, stratified by case kind if more than 2000; thorough: its quick- and "
+        "thorough-tier cases) executed on that property's ASan+UBSan harness, one evaluation per case, one 'non-trivial' per "
+        "distinct case kind swept.  extra phase 2 (compile probes): probe TUs of "
+        "harness/C10/probes/PROBES.json (quick: every known-failing probe + class-level probes + its quick-marked probes + a sample, <= 420; thorough: all), "
+        "one evaluation per probe, non-trivial = it compiled (link probes: compiled and linked with the /repo sources they name).")
 TRUSTED_BASE = [
     "CLAUSE 1 IS NOT PROVED: template instantiation is decided by g++ on the probe TUs listed in harness/C10/probes/PROBES.json "
     "(hand-made table of (class template, library type, member)); pairs not in the table are not covered",
@@ -209,6 +211,28 @@ def gen_ebu(rng, empty=False):
     pls = sum((vec(-3, 3) for _ in range(nv)), [])
     return "%s %d %d %s %d %s" % ("ebuempty" if empty else "ebu", d, np_, " ".join(pts), nv, " ".join(pls))
 
+def gen_edi(rng):
+    """old range pruned among itself first (documented precondition of extractDominatedIncremental) in 80 % of the
+       cases; the no-UB theorem needs no such precondition, so 20 % violate it on purpose.  Half of the cases have
+       'strong' new vectors (an old vector plus a non-negative offset) so that old entries are removed and the final
+       swap loop runs with more old-bad than new-good entries, and the other way round."""
+    n = rng.choice([0, 1, 2, 3, 4, 5, 6, 8, 10, 12]); d = rng.randint(1, 3)
+    nold = rng.randint(0, n)
+    pool = [[rng.randint(-2, 2) for _ in range(d)] for _ in range(max(1, n // 2 + 1))]
+    vecs = [list(rng.choice(pool)) if rng.random() < 0.4 else [rng.randint(-3, 3) for _ in range(d)] for _ in range(n)]
+    if rng.random() < 0.8:
+        old = vecs[:nold]
+        keep = [v for i, v in enumerate(old)
+                if not any((all(w[k] >= v[k] for k in range(d)) and (w != v or j < i)) for j, w in enumerate(old) if j != i)]
+        vecs = keep + vecs[nold:]; nold = len(keep); n = len(vecs)
+    if nold > 0 and rng.random() < 0.5:
+        for i in range(nold, n):
+            if rng.random() < 0.6:
+                base = vecs[rng.randrange(nold)]
+                vecs[i] = [x + rng.choice([0, 0, 1, 2, 4]) for x in base]
+    toks = ["%d/2" % x if x % 2 else str(x // 2) for v in vecs for x in v]
+    return "edi %d %d %d %s" % (n, nold, d, " ".join(toks))
+
 def gen(rng, tier):
     n = {"quick": 300, "thorough": 2500, "search": 600}[tier]
     cases = []
@@ -221,7 +245,8 @@ def gen(rng, tier):
         elif r < 0.5:
             c = gen_match(rng, False)
             if c: cases.append(c)
-        elif r < 0.62: cases.append(gen_ed(rng))
+        elif r < 0.54: cases.append(gen_ed(rng))
+        elif r < 0.62: cases.append(gen_edi(rng))
         elif r < 0.7: cases.append(gen_ebu(rng))
         elif r < 0.78: cases.append(gen_wit(rng))
         elif r < 0.8: pass
@@ -233,10 +258,13 @@ def gen(rng, tier):
         if c: cases.append(c)
         cases.append(gen_fibmax(rng, True))
     for _ in range(3): cases.append(gen_ebu(rng, True))
+    for _ in range(60 if tier == "quick" else 400): cases.append(gen_edi(rng))     # cheap; many zone-size combinations
     return cases
 
 # ---------------------------------------------------------------- extra phase 1: sanitizer sweep
-SWEEP_QUICK_PER_PROP = 120       # cases sampled per property in the quick tier (thorough: all)
+SWEEP_QUICK_PER_PROP = 2000      # generated cases per property in the quick tier (= all of its quick-tier cases today; thorough: two seeds)
+SWEEP_QUICK_PER_KIND = 4         # ... of which at least this many of every case kind / variant (stratified)
+SWEEP_QUICK_CORPUS = 60          # corpus cases per property in the quick tier (thorough: all)
 SWEEP_SKIP = set()               # properties whose harness cannot be swept (none)
 
 def _corpus(api, pid):
@@ -261,33 +289,63 @@ def _sweep_build(api, pid):
         return prop, None, [dict(kind="DISAGREE", clause="sweep_build", site=pid, detail=first[:300], case="-")]
     return prop, exe, []
 
+def _kind_key(case):
+    """stratum of a case: its kind token, refined by the second token when that is a word (regime / variant
+       such as 'vi dy', 'direct generic', 'rtbss sparse', 'sr pomdp.ss'), not a number or a path"""
+    t = case.split()
+    if len(t) > 1 and len(t[1]) <= 12 and re.fullmatch(r"[A-Za-z_][A-Za-z_.]*[0-9]?", t[1]):
+        return t[0] + " " + t[1]
+    return t[0] if t else "?"
+
+def _stratified(cases, total, per_kind_min, rng):
+    """every kind gets at least per_kind_min cases (or all it has); the rest of the budget is spread
+       proportionally; within a kind the sample is uniform"""
+    groups = {}
+    for c in cases:
+        groups.setdefault(_kind_key(c), []).append(c)
+    picked = []
+    left = []
+    for k in sorted(groups):
+        g = groups[k]
+        rng.shuffle(g)
+        picked += g[:per_kind_min]
+        left += g[per_kind_min:]
+    room = max(0, total - len(picked))
+    if room and left:
+        picked += rng.sample(left, min(room, len(left)))
+    return picked, len(groups)
+
 def _sweep_run(api, pid, prop, exe):
-    """-> (records, ncases)"""
+    """-> (records, ncases, nkinds, seconds)"""
     recs = []
     corpus = _corpus(api, pid)
-    cases = list(corpus)
-    try:
-        cases += list(prop.gen(random.Random(api["seed"]), "quick"))
-    except Exception as ex:
-        recs.append(dict(kind="DISAGREE", clause="sweep_gen", site=pid, detail=repr(ex)[:200], case="-"))
-    if api["tier"] == "quick" and len(cases) > SWEEP_QUICK_PER_PROP:
+    gen_cases = []
+    # quick: the property's quick-tier cases; thorough: its quick-tier AND its thorough-tier cases
+    for tier_ in (["quick"] if api["tier"] == "quick" else ["quick", "thorough"]):
+        try:
+            gen_cases += list(prop.gen(random.Random(api["seed"]), tier_))
+        except Exception as ex:
+            recs.append(dict(kind="DISAGREE", clause="sweep_gen", site=pid, detail=repr(ex)[:200], case="-"))
+    nk = len(set(_kind_key(c) for c in corpus + gen_cases))
+    if api["tier"] == "quick":
         rng = random.Random(api["seed"] * 31 + sum(map(ord, pid)))
-        keep = corpus[:SWEEP_QUICK_PER_PROP // 2]
-        rest = cases[len(corpus):]
-        keep += rng.sample(rest, min(len(rest), SWEEP_QUICK_PER_PROP - len(keep)))
-        cases = keep
+        sample, _ = _stratified(gen_cases, SWEEP_QUICK_PER_PROP, SWEEP_QUICK_PER_KIND, rng)
+        cases = corpus[:SWEEP_QUICK_CORPUS] + sample
+    else:
+        cases = corpus + gen_cases
     if not cases:
-        return recs, 0
+        return recs, 0, 0, 0.0
     cpath = os.path.join(api["workdir"], "sweep_%s.cases" % pid)
     opath = os.path.join(api["workdir"], "sweep_%s.out" % pid)
     api["write_cases"](cpath, cases)
     tmo = min(120, getattr(prop, "CASE_TIMEOUT", 20) * 5)
+    t0 = time.time()
     crashes = api["run_harness"](exe, cpath, opath, len(cases), tmo)
     for (cid, kind, detail) in crashes:
         case = cases[cid] if 0 <= cid < len(cases) else "?"
         ck = case.split()[0] if case != "?" else "harness"
         recs.append(dict(kind="SANITIZER", clause="no_UB", site="%s:%s" % (pid, ck), detail="%s %s" % (kind, detail), case=case))
-    return recs, len(cases)
+    return recs, len(cases), nk, time.time() - t0
 
 def sanitizer_sweep(api):
     pids = [p for p in api["claimed_props"]() if p != "C10" and p not in SWEEP_SKIP]
@@ -302,11 +360,17 @@ def sanitizer_sweep(api):
     t1 = time.time()
     with ThreadPoolExecutor(max(1, min(len(built), 8))) as ex:
         results = list(ex.map(lambda t: (t[0], _sweep_run(api, *t)), built))
-    for pid, (r, n) in results:
+    slow = []
+    for pid, (r, n, nk, secs) in results:
         recs += r
         api["evaluations"] += n
-        api["nontrivial"] += 1 if n else 0
+        api["nontrivial"] += nk
         api["tags"]["sweep:" + pid] = n
+        api["tags"]["sweep_kinds:" + pid] = nk
+        slow.append((secs, pid))
+    slow.sort(reverse=True)
+    for s_, p_ in slow[:4]:
+        api["tags"]["sweep_slowest_s:" + p_] = int(s_)
     api["tags"]["sweep_run_s"] = int(time.time() - t1)
     return recs
 
@@ -318,7 +382,7 @@ def sanitizer_sweep(api):
 # in known_findings.d/C10.json.  Quick tier: class-level probes + every probe of a class with a known failure,
 # sampled down to PROBE_QUICK_MAX; thorough: all.  Successes are cached by compile_tu (content hash incl. the
 # include tree), failures by a small negative cache with the same key.
-PROBE_QUICK_MAX = 260
+PROBE_QUICK_MAX = 420
 # Members whose documentation itself restricts them ("This method can only be used if the underlying TrieType supports
 # it": FilterMap<T,TrieType>::filter(const PartialFactors&); FasterTrie has no such overload).  Their failure to
 # instantiate is the documented behaviour, not a finding: these probes (and the class-level explicit instantiation,
@@ -351,11 +415,12 @@ def probe_checks(api):
     api["tags"]["probes_documented_unsupported"] = nall - len(probes)
     rng = random.Random(api["seed"] * 131 + 7)
     if api["tier"] == "quick":
-        must = [p for p in probes if p.get("expect") == "fail"]
-        cls = [p for p in probes if p.get("member") is None and p.get("expect") != "fail"]
-        rest = [p for p in probes if p.get("member") is not None and p.get("expect") != "fail"]
+        must = [p for p in probes if p.get("expect") == "fail" or p.get("kind") == "link"]
+        mset = set(p["file"] for p in must)
+        quick = [p for p in probes if p.get("tier") == "quick" and p["file"] not in mset]
+        rest = [p for p in probes if p.get("tier") != "quick" and p["file"] not in mset]
         room = max(0, PROBE_QUICK_MAX - len(must))
-        pick = cls if len(cls) <= room else rng.sample(cls, room)
+        pick = quick if len(quick) <= room else rng.sample(quick, room)
         room -= len(pick)
         pick += rng.sample(rest, min(len(rest), room))
         chosen = must + pick
@@ -383,8 +448,46 @@ def probe_checks(api):
             return p, False, msg
         return p, True, ""
 
+    compile_probes = [p for p in chosen if p.get("kind", "compile") != "link"]
+    link_probes = [p for p in chosen if p.get("kind") == "link"]
     with ThreadPoolExecutor(api["NCPU"]) as ex:
-        results = list(ex.map(one, chosen))
+        results = list(ex.map(one, compile_probes))
+    # link probes (non-template members can be declared and never defined; only the linker sees it): the probe
+    # odr-uses one member from main(); it is linked with the /repo translation units its manifest entry lists.
+    # The /repo objects are the pipeline's own (variant "plain", same flags and cache as the harnesses); each
+    # distinct source is compiled once (never the same TU from two threads: compile_tu's temp name is per process).
+    if link_probes:
+        srcs = sorted(set(x for p in link_probes for x in p.get("link", [])))
+        with ThreadPoolExecutor(api["NCPU"]) as ex:
+            objs = dict(zip(srcs, ex.map(lambda x: api["compile_tu"](os.path.join(api["REPO"], x), flags, "plain"), srcs)))
+        ldir = os.path.join(api["workdir"], "linkprobes")
+        os.makedirs(ldir, exist_ok=True)
+
+        def link_one(p):
+            r = one(p)
+            if not r[1]:
+                return r
+            src = os.path.join(pdir, p["file"])
+            obj, _ = api["compile_tu"](src, flags, "probe")
+            need = []
+            for x in p.get("link", []):
+                o, err = objs[x]
+                if o is None:
+                    return p, False, "cannot compile %s: %s" % (x, _first_error(err))
+                need.append(o)
+            exe = os.path.join(ldir, re.sub(r"\W", "_", p["file"]))
+            import subprocess
+            q = subprocess.run([api["CXX"], obj] + need + list(p.get("link_libs", [])) + ["-o", exe],
+                               stdout=subprocess.PIPE, stderr=subprocess.STDOUT, text=True)
+            if os.path.exists(exe): os.remove(exe)
+            if q.returncode != 0:
+                m = [l for l in q.stdout.split("\n") if "undefined reference" in l or "multiple definition" in l or "error" in l.lower()]
+                return p, False, re.sub(r"\s+", " ", (m[0] if m else q.stdout[:300]).strip())[:300]
+            return p, True, ""
+
+        with ThreadPoolExecutor(api["NCPU"]) as ex:
+            results += list(ex.map(link_one, link_probes))
+        api["tags"]["probes_link"] = len(link_probes)
     recs = []
     nfail = 0
     for p, ok, msg in results:
